@@ -108,7 +108,7 @@ def typedef_text(td, extra_derives=("Debug", "Clone")):
 
 SHADOW = ("pub mod shadow { " + " ".join("pub struct %s;" % n for n in ["Option", "Some", "None", "Eq", "Fn", "FnOnce", "Clone", "Ordering", "Result", "Default", "Ok", "Err", "PartialEq", "Ord",
                                                                         "PartialOrd", "Hash", "Hasher", "Debug", "Sized", "Copy", "Box", "Vec", "String", "Into", "From", "Iterator", "Send", "Sync", "Drop",
-                                                                        "Equal", "Less", "Greater", "Formatter", "PhantomData", "Deref", "Add"]) +
+                                                                        "Equal", "Less", "Greater", "Formatter", "PhantomData", "Deref", "Add", "bool", "usize", "isize", "u64"]) +
           " pub mod core {} pub mod std {} pub mod alloc {} pub fn drop() {} pub fn unreachable() {} }\n")
 
 
@@ -117,7 +117,7 @@ def wrap(td, text):
         return text
     body = "".join(l + " " for l in text.split("\n") if l.strip())
     # one paragraph: the derive_ex item under a prelude-shadowing glob import; key/by functions and field types come from support
-    return ("pub mod def { #[allow(unused_imports)] use super::shadow::*; use crate::support::{%s};\n%s\n}\n\n%spub use def::%s as %s;\n" % (
+    return ("pub mod def { #[allow(unused_imports)] use super::shadow::*; use crate::support::{%s}; #[allow(unused_macros)] macro_rules! unreachable { (never) => {} }\n%s\n}\n\n%spub use def::%s as %s;\n" % (
         ", ".join(["P", "W", "Kb"] + ["k_" + a for a in R.OPS] + ["by_" + a for a in R.OPS] + ["ck", "ck_cmp", "ck_pcmp", "ck_eq", "ck_hash"]), body, SHADOW, td.hostile.get("type", td.tname), td.tname))
 
 
